@@ -42,6 +42,7 @@ def run(ctx: RuleContext):
     ctx.sub(check_sentinels_by_reference, ctx)
     ctx.sub(check_no_mutable_state_in_namespace, ctx)
     ctx.sub(check_namespace_is_process_independent, ctx)
+    ctx.sub(check_categories_are_bound_once, ctx)
     # C20.7: what an annotation accepts is decided from the annotation's own attributes, not from a table keyed by
     # something that a reloaded copy can share with another annotation (`id()` of a freed tuple, a name, a repr)
     from ..roles import roles_for
@@ -171,9 +172,34 @@ def reducer_plan(ctx, red):
         items = _resolve_local(red, item) if isinstance(item, ast.Name) else [item]
         return gen, [ast.parse(f"{x}.dtype", mode="eval").body], items, None
     loader = m.resolve_expr_static(red, fn_e)
-    if loader is not None and hasattr(loader, "node") and isinstance(args_e, ast.Tuple) and len(args_e.elts) == 2:
+    if loader is not None and hasattr(loader, "node") and isinstance(args_e, ast.Tuple) and len(args_e.elts) >= 2:
         cats = _resolve_local(red, args_e.elts[0])
         items = _resolve_local(red, args_e.elts[1])
+        # anything else put on the wire must mean the same in every process: a per-process serial / id / counter does not
+        for extra in args_e.elts[2:]:
+            srcs = _resolve_local(red, extra) if isinstance(extra, ast.Name) else [extra]
+            # follow attribute reads of the annotation back to where the reducer (or a helper) stores them
+            texts = []
+            for s_ in srcs:
+                texts.append(s_)
+                if isinstance(s_, ast.Attribute) and isinstance(s_.value, ast.Name) and s_.value.id == x:
+                    for st in ast.walk(red.module.tree):
+                        if isinstance(st, ast.Assign) and any(isinstance(t_, ast.Attribute) and t_.attr == s_.attr for t_ in st.targets):
+                            texts.append(st.value)
+                        if isinstance(st, ast.Call) and isinstance(st.func, ast.Name) and st.func.id == "setattr" and len(st.args) == 3 and isinstance(st.args[1], ast.Constant) and st.args[1].value == s_.attr:
+                            texts.append(st.args[2])
+            local = None
+            for t_ in texts:
+                for c_ in ast.walk(t_):
+                    if isinstance(c_, ast.Call) and norm(c_.func).split(".")[-1] in ("next", "id", "getpid", "count", "uuid4", "time", "monotonic", "get_ident"):
+                        local = c_
+                    if isinstance(c_, ast.Name) and red.module.assigns.get(c_.id) and any(isinstance(v_, ast.Call) and norm(v_.func).split(".")[-1] in ("count",) for v_ in red.module.assigns[c_.id] if v_ is not None):
+                        local = c_
+            if local is not None:
+                ctx.bad("C20.3", red, gen, f"the reducer puts `{norm(extra)}` on the wire, a value of this process (`{short(local, 40)}`): in another process the same number names another "
+                        "annotation (or none), so what the loader resolves it to is not the annotation that was pickled", construct=f"process-local value on the wire: {norm(extra)}")
+            else:
+                raise AnalysisError(f"C20: the reducer puts `{norm(extra)}` on the wire besides the category and the subscription; what it means in another process is not decided")
         return gen, cats, items, loader
     raise AnalysisError(f"C20: reducer callable `{norm(fn_e)}` not recognised")
 
@@ -589,7 +615,7 @@ def check_namespace_is_process_independent(ctx):
             if t.kind == "func" and t.target.module is mod:
                 stack.append(t.target)
     ctx.counters["namespace_builders"] = len(reach)
-    ctx.floor("C20.8", "namespace_builders", 3)
+    ctx.floor("C20.8", "namespace_builders", 2)
     read = {}
     for f in reach.values():
         for n in walk_scope(f.node):
@@ -621,6 +647,37 @@ def check_namespace_is_process_independent(ctx):
                 ctx.ok("C20.8", sf.qualname, f"`{short(st, 60)}`: what is stored in `{table}` is computed from the key / the arguments alone (a memo)")
     if not read:
         ctx.ok("C20.8", ma.qualname, f"none of the {len(reach)} functions that build an annotation's namespace reads a module-level container ({len(conts)} in the module)")
+
+
+def check_categories_are_bound_once(ctx, tag="C20.9"):
+    """What the reducer replays is `category[array type, dim string]`: the copy means what the original means only if the category's
+    `dtypes` are what they were when the original snapshotted them.  They are bound once, when the category class is defined
+    (`__init_subclass__`); a later re-binding (a compatibility shim that appends the narrow floats once `ml_dtypes` is imported) makes an
+    annotation created before it and its pickle round trip made after it accept different dtypes."""
+    m = ctx.model
+    n = 0
+    bad = False
+    for f in m.all_functions(include_typeguard=False):
+        if f.module.short != "_array_types":
+            continue
+        for st in walk_scope(f.node):
+            tg = st.targets if isinstance(st, ast.Assign) else [st.target] if isinstance(st, (ast.AugAssign, ast.AnnAssign)) and getattr(st, "value", None) is not None else []
+            for t in tg:
+                if isinstance(t, ast.Attribute) and t.attr == "dtypes":
+                    n += 1
+                    if f.name == "__init_subclass__":
+                        continue
+                    bad = True
+                    ctx.bad(tag, f, st, f"`{short(st, 60)}` re-binds the dtypes of a category at run time (outside `__init_subclass__`): annotations snapshot them when they are created, "
+                            "the reducer replays the subscription against the category as it is *then*, so an annotation made before this runs and its pickle round trip made after it "
+                            "accept different dtypes (and cloudpickle / deepcopy, which keep the snapshot, disagree with pickle)", construct=f"category dtypes re-bound in {f.name}")
+            if isinstance(st, ast.Call) and isinstance(st.func, ast.Name) and st.func.id == "setattr" and len(st.args) == 3 and isinstance(st.args[1], ast.Constant) and st.args[1].value == "dtypes":
+                bad = True
+                ctx.bad(tag, f, st, f"`{short(st, 60)}` re-binds the dtypes of a category at run time", construct=f"category dtypes re-bound in {f.name}")
+    ctx.counters["dtypes_bindings"] = n
+    ctx.floor(tag, "dtypes_bindings", 1)
+    if not bad:
+        ctx.ok(tag, "_array_types.AbstractDtype.__init_subclass__", f"a category's dtypes are bound in __init_subclass__ only ({n} binding site(s))")
 
 
 def check_by_reference(ctx):
